@@ -68,7 +68,8 @@ def _stepcheck(v, tier, seed, mode="th", family="C07"):
         keep = {"|".join(conccheck.cstr(c) for c in calls) for _, calls in conccheck.OBJ_QUICK}
         scs = [s_ for s_ in scs if s_.name.split("/", 2)[2] in keep and len(s_.threads) == 2] + \
               [s_ for s_ in scs if len(s_.threads) == 3 and "tag:p1:a|tag:p1:b|tag:p2:b" in s_.name]
-    res = stepcheck.run(scs, nruns=4 if tier == "quick" else 12, seed=seed)
+    res = stepcheck.run(scs, nruns=4 if tier == "quick" else 12, seed=seed,
+                        do_crash=(tier == "thorough"))
     runs = sum(r_["runs"] for r_ in res)
     acc = sum(r_["accepted"] for r_ in res)
     v.drift += runs - acc
@@ -81,6 +82,10 @@ def _stepcheck(v, tier, seed, mode="th", family="C07"):
         "recorded_executions_validated": runs, "accepted_by_model": acc,
         "events_matched": sum(r_.get("events", 0) for r_ in res),
         "rejected_samples": [dict(scenario=r_["scenario"], **r_["stuck"][0]) for r_ in res if r_["stuck"]][:5],
+        "two_thread_crash_scenarios_model_checked": sum(1 for r_ in res if r_.get("crash_mc")),
+        "two_thread_crash_model_states": sum(r_["crash_mc"]["distinct"] for r_ in res if r_.get("crash_mc")),
+        "two_thread_crash_model_violations": [(r_["scenario"], r_["crash_mc"]["violated"]) for r_ in res
+                                              if r_.get("crash_mc") and not r_["crash_mc"]["ok"]][:5],
         "planted_corruptions": sum(r_.get("planted", 0) for r_ in res),
         "planted_corruptions_rejected": sum(r_.get("planted_rejected", 0) for r_ in res),
         "tlc_errors": [r_["scenario"] for r_ in res if r_.get("error")][:5]}
